@@ -322,7 +322,7 @@ end OF.Recv
 namespace OF.Recv
 
 /-- the same for any freshly constructed plain sources, all-topics or explicit / remapped -/
-theorem init_JInv' (sp : JSpec) (srcs : List Src) (streams : List (List Wire)) (lowLat : Bool)
+theorem init_JInv_explicit (sp : JSpec) (srcs : List Src) (streams : List (List Wire)) (lowLat : Bool)
     (hlen : srcs.length = sp.ids.length)
     (hsrc : ∀ (j : Nat) (s : Src), srcs[j]? = some s →
       ∃ t ids ws, sp.topics[j]? = some t ∧ sp.ids[j]? = some ids ∧ streams[j]? = some ws ∧ Stream t ids ws ∧
